@@ -171,6 +171,41 @@ def planted_packing(draw, C, max_bins=5, max_len=13, slack=True):
 
 
 @st.composite
+def hard_packing(draw, C, max_bins=4, max_len=12):
+    """Planted perfect packings on which decreasing heuristics usually fail: every bin is a 'medium' item
+    (between a third and a half of the bin) plus two or three fillers that complete it exactly, so that pairing
+    the mediums greedily leaves gaps no filler closes.  Needs C >= 12.  Returns (family, values, number of bins)."""
+    fam = draw(st.sampled_from(["triples", "medium+fill"]))
+    m = draw(st.integers(2, max_bins))
+    if fam == "triples":
+        m = min(m, max_len // 3)
+    else:
+        m = min(m, max_len // 4)
+    m = max(m, 2)
+    vals = []
+    for _ in range(m):
+        if fam == "triples":
+            a = draw(st.integers(C // 3 + 1, C // 2 - 1))
+            b = draw(st.integers(C // 4, max(C // 4, C - a - C // 5)))
+            c = C - a - b
+            if c <= 0:
+                b, c = C - a - 1, 1
+            vals += [a, b, c]
+        else:
+            a = draw(st.integers((3 * C) // 10, (9 * C) // 20))
+            rest = C - a
+            pieces = draw(st.integers(2, 3))
+            cuts = sorted(draw(st.lists(st.integers(1, rest - 1), min_size=pieces - 1, max_size=pieces - 1,
+                                        unique=True)))
+            prev = 0
+            for c in cuts + [rest]:
+                vals.append(c - prev)
+                prev = c
+            vals.append(a)
+    return fam, list(draw(st.permutations(vals))), m
+
+
+@st.composite
 def packing_values(draw, C, min_len=1, max_len=12, allow_zero=True):
     """Items with 0 <= value <= C.  Returns (profile, list)."""
     profile = draw(st.sampled_from(["uniform", "thresholds", "planted", "many-equal", "small-items", "large-items"]))
